@@ -1,5 +1,6 @@
 #!/bin/bash
 # tools_seeded.sh <PROP> <VARIANT> [check-prop ...]
+# SEED_FEATURES=serde,rayon : features the demonstration needs; SEED_PROFILE=release : profile it needs
 # Confirms a seeded change produced by a sub-agent in its scratch worktree (/tmp/wt/<PROP>/out/<VARIANT>):
 #   1. the patch applies to /repo HEAD, 2. demo fails with it / passes without it (scratch worktree),
 #   3. the existing suite passes with it, 4. runs the given checks (default: <PROP>) against it in /repo,
@@ -26,7 +27,7 @@ if [ -f $OUT/demo.diff ]; then
   demo() { timeout 600 cargo test --offline --lib c14_ >/tmp/wt/demo_$P$V.log 2>&1; echo $?; }
 else
   cp $DST/demo.rs tests/seeded_demo.rs
-  demo() { timeout 600 cargo test --offline --test seeded_demo >/tmp/wt/demo_$P$V.log 2>&1; echo $?; }
+  demo() { timeout 600 cargo test --offline ${SEED_FEATURES:+--features $SEED_FEATURES} ${SEED_PROFILE:+--$SEED_PROFILE} --test seeded_demo >/tmp/wt/demo_$P$V.log 2>&1; echo $?; }
 fi
 D0=$(demo)                       # without the change
 git apply $DST/patch.diff
